@@ -804,7 +804,7 @@ func (w *World) firstNodeRule(P string, f *Facts, r *Roles) {
 			continue
 		}
 		seen := map[*ssa.Function]bool{}
-		for _, impl := range b.impls() {
+		for _, impl := range w.builtinRoots(bn) {
 			for g := range staticReach(impl, func(x *ssa.Function) bool { return fnPkgKey(x) == "exec" }) {
 				if seen[g] {
 					continue
@@ -960,7 +960,7 @@ func (w *World) constantConversions(P string, f *Facts, r *Roles) {
 		for ar, impl := range b.Fns {
 			ok := false
 			detail := "no success return"
-			for _, sr := range successReturns(impl, "exec") {
+			for _, sr := range successReturnsBound(impl, "exec", f.BuiltinBind[fmt.Sprintf("%s#%d", bname, ar)]) {
 				v := stripConvAll(sr.Val)
 				neg := false
 				if u, isU := v.(*ssa.UnOp); isU && u.Op == token.NOT {
@@ -996,4 +996,37 @@ func (w *World) constantConversions(P string, f *Facts, r *Roles) {
 	apply("string", "String", false)
 	apply("number", "Number", false)
 	w.floor(P, "R04.6", 12)
+}
+
+// builtinRoots: the implementations of a builtin and the functions of package exec they were specialised with (bound
+// to the free variables of a closure built by a factory).
+func (w *World) builtinRoots(name string) []*ssa.Function {
+	b := w.Facts().Builtins[name]
+	if b == nil {
+		return nil
+	}
+	var out []*ssa.Function
+	seen := map[*ssa.Function]bool{}
+	add := func(g *ssa.Function) {
+		if g != nil && !seen[g] && fnPkgKey(g) == "exec" {
+			seen[g] = true
+			out = append(out, g)
+		}
+	}
+	for _, impl := range b.impls() {
+		add(impl)
+	}
+	for ar := range b.Fns {
+		for _, v := range w.Facts().BuiltinBind[fmt.Sprintf("%s#%d", name, ar)] {
+			switch x := stripConv(v).(type) {
+			case *ssa.Function:
+				add(x)
+			case *ssa.MakeClosure:
+				g, _ := x.Fn.(*ssa.Function)
+				add(g)
+			}
+		}
+	}
+	sortFuncs(out)
+	return out
 }
